@@ -120,6 +120,8 @@ def run(ctx):
     ctx.attempt(r161, ctx, rep)
     ctx.attempt(r162, ctx, rep)
     ctx.attempt(r164, ctx, rep)
+    rep.rule('R16.6', 'a tee view stores the options it is given as they are: what it writes is decided by the same arguments the to* function would get (no re-interpretation of protocol, encoding, write_header ... in the constructor)')
+    ctx.attempt(r166, ctx, rep)
     rep.rule('R16.5', 'a pass through a tee view does not change the view: what the second pass (header(), look(), the real pass) writes is what the first wrote (C01 R1.3 for the Tee*View classes)')
     ctx.attempt(r165, ctx, rep)
 
@@ -428,6 +430,12 @@ def r164(ctx, rep):
                      'raised, every later pass is served from the emptied memo and yields nothing' % f2.name, node)
     if not bad:
         rep.held('R16.4', (ci.module.name, ci.name), 'memo and flag are reset together', '', ci.node)
+    from .common import cacheview_flag_on_exhaustion
+    fn2, why = cacheview_flag_on_exhaustion(ctx)
+    if why is None:
+        rep.held('R16.4', fn2, 'complete only on exhaustion', 'the flag is raised after the loop over the inner table ended normally', fn2.node)
+    else:
+        rep.violated('R16.4', fn2, 'complete only on exhaustion', why, fn2.node)
     fn, cex = cacheview_flag_truthful(ctx)
     if cex is None:
         rep.held('R16.4', fn, 'completeness == room', 'complete implies room on the grid n in {None,0,1,2,3} x len(cache) in 0..4', fn.node)
@@ -461,3 +469,31 @@ def r165(ctx, rep):
     if n < 4:
         raise AnalysisError('anchor vanished: only %d Tee*View classes' % n)
     rep.held('R16.5', ('petl.io', 'Tee*View'), 'view state', '%d tee views: no iterator-reachable code writes view state' % n, None)
+
+
+# ------------------------------------------------------------------------- R16.6
+def r166(ctx, rep):
+    n = 0
+    for v in ctx.views.real_views():
+        if not v.cls.name.startswith('Tee') or not v.cls.module.name.startswith('petl.io'):
+            continue
+        init = v.cls.methods.get('__init__')
+        if init is None:
+            continue
+        for x in own_nodes(init.node):
+            if not (isinstance(x, ast.Assign) and len(x.targets) == 1):
+                continue
+            t = norm(x.targets[0])
+            if not t.startswith('self.') or t[5:] not in init.params:
+                continue
+            p = t[5:]
+            n += 1
+            if norm(x.value) == p:
+                rep.held('R16.6', init, 'self.%s = %s' % (p, p), '', x)
+            elif any(isinstance(y, ast.Name) and y.id == p for y in ast.walk(x.value)):
+                rep.violated('R16.6', init, norm(x)[:70], 'the tee view stores `%s` re-interpreted (%s) while the to* function of '
+                             'the format passes its argument through: for some values of `%s` the tee target is no longer '
+                             'byte-identical to what the to* function writes' % (p, norm(x.value)[:50], p), x)
+            else:
+                rep.violated('R16.6', init, norm(x)[:70], 'the tee view stores something else than the caller\'s `%s`' % p, x)
+    ctx.floor('tee_option_stores', n, 15)
